@@ -801,15 +801,16 @@ def systematic(rng, root, nodes, cap):
     """deterministic families over a (small) tree: delete every node and every field; every position x every
     rule-breaking code of every slice field (virtual ones included)"""
     reqs = []
+    deletes = []      # never capped: delete every node and put None to every field of every node
     for i, f in enumerate(nodes):
-        if i:
-            reqs.append({'errkind': 'undeletable', 'op': 'remove', 'node': i})
+        if i and not isinstance(f.a, ast.expr_context):
+            deletes.append({'errkind': 'undeletable', 'op': 'remove', 'node': i})
         for fld in f.a._fields:
             if fld == 'ctx':
                 continue
             v = getattr(f.a, fld, None)
             if not isinstance(v, list):
-                reqs.append({'errkind': 'delete-field', 'op': 'put', 'node': i, 'field': fld, 'idx': None, 'code': {'k': 'none'}})
+                deletes.append({'errkind': 'delete-field', 'op': 'put', 'node': i, 'field': fld, 'idx': None, 'code': {'k': 'none'}})
         for fld in _virtual_fields(f.a):
             n = _flen(f, fld)
             for src in _vpool(f.a, fld):
@@ -861,7 +862,7 @@ def systematic(rng, root, nodes, cap):
                 reqs.append({'errkind': 'raw-any', 'op': 'replace', 'node': i, 'code': {'k': 'src', 'v': code}, 'opts': {'raw': True}})
     if len(reqs) > cap:
         reqs = rng.sample(reqs, cap)
-    return first + reqs
+    return deletes + first + reqs
 
 
 def gen_invalid(rng, root, nodes, errkind=None):
